@@ -414,6 +414,7 @@ func genScenario(r *rand.Rand, so ScenOpts, marker string) *Scenario {
 		script.ReadBuf = pick(r, []int{0, 0, 7, 64, 4096, 5, 1024})
 		script.DeclareTrailers = chance(r, 40)
 		script.DeclareCase = pick(r, []int{0, 0, 1, 2})
+		script.OKExtras = pick(r, []int{0, 0, 0, 1, 2})
 		script.BareCT = chance(r, 15)
 		script.FlushEach = chance(r, 30)
 		if so.Headers {
